@@ -46,7 +46,8 @@ def blade_class(r: fb.Rng, big=True):
     k = r.below(10)
     if k < 5 or not big: return r.below(9)
     if k < 7: return r.choice([1000, 1001, 1002, 1003, 10**6, 10**6 + 1, 4 * 250000 + 2])
-    if k < 9: return r.choice([2**31 - 1, 2**31, 2**31 + 1, 2**32 + 2, 2**40, 2**40 - 1])
+    # every grade on both sides of 2^31 and 2^32 (signed / unsigned 32-bit narrowing: bit 31 set or clear, wrap at 2^32)
+    if k < 9: return r.choice([2**31 - 1, 2**31, 2**31 + 1, 2**31 + 2, 2**31 + 3, 2**32 - 1, 2**32, 2**32 + 2, 2**32 + 2**31 + 3, 2**33 + 1, 2**40, 2**40 - 1])
     return r.below(1 << 40)
 
 def canon_angle(P, r: fb.Rng, big=True):
